@@ -261,10 +261,28 @@ func (m *model) judge(a string, prev, next *st) (viol []xstate.Violation, tags [
 		}
 		msgs := fsckClasses(r.Out + r.Err)
 		if r.Code == 0 {
-			if len(msgs) > 0 {
+			// exit 0 can still come with "warning in <object>: <class>" lines: stock git saying that an
+			// object is not what git itself would write (bad file mode, zero-padded mode, ...). Objects
+			// only git-bug can have written since the last clean answer: not valid git data.
+			var warn, freshWarn []string
+			for _, x := range msgs {
+				if strings.HasPrefix(x, "warning in ") {
+					warn = append(warn, x)
+					known := false
+					for _, b := range before {
+						known = known || b == x
+					}
+					if !known {
+						freshWarn = append(freshWarn, x)
+					}
+				}
+			}
+			if len(freshWarn) > 0 {
+				add("c15.fsck."+where, a+":"+strings.Join(freshWarn, ","), "after %s (%s), `git fsck --strict --no-dangling` on the %s warns about stored objects: %s", a, next.Outcome, where, clip(r.Out+r.Err))
+			} else if len(msgs) > 0 {
 				tags = append(tags, "fsck-note:"+strings.Join(msgs, ","))
 			}
-			return nil
+			return warn
 		}
 		if len(msgs) == 0 {
 			msgs = []string{fmt.Sprintf("exit %d", r.Code)}
